@@ -7,5 +7,12 @@ CHECKS = {
         design_ref="DESIGN.md section 3, C01",
         note=NOTE_L1,
     ),
+    "C02": dict(
+        engine="lattice",
+        technique="bounded exhaustive enumeration of operation x signature x flavor x stratified alphabet on the real dispatch path, at 60 digits and in float64; oracle = independent reference model of the documented definitions (M_geo)",
+        text="Every catalogued operation, for every coordinate-system signature (the Cartesian one included), both flavors and the stratified operand/scalar alphabets, is executed through the real public API and compared with an independent mpmath reference written from the documentation: at 60 digits (1e-40) wherever the definition is finite, and on ordinary float64 object vectors (1e-9 plus an explicit +-1ulp conditioning estimate) on the well-conditioned strata.",
+        design_ref="DESIGN.md section 3, C02",
+        note=NOTE_L1 + "; M_geo (mc/model.py, ~300 lines of formulas) is trusted and cross-checked by the algebraic laws of C09-C11",
+    ),
 }
 NOT_YET = {}
